@@ -4,14 +4,14 @@
    for every name conversion); [compile] instantiates them with lib/Strcase.v. *)
 From Coq Require Import String List NArith Bool.
 From J5V.lib Require Import Outcome Strcase.
-From J5V.model Require Import J5sAst Desc J5sWalk J5sLink J5sConvert J5sContract J5sValid J5sCorr.
+From J5V.model Require Import J5sAst Desc J5sWalk J5sLink J5sConvert J5sContract J5sSymbols J5sTypeNames J5sValid J5sCorr.
 From J5V.gen Require ImportsGen.
-From J5V.proofs Require Import J5sProofs J5sContractProofs J5sLinkProofs J5sResolveProofs J5sServiceProofs J5sTotalProofs J5sCompileProofs J5sWitnessProofs.
+From J5V.proofs Require Import J5sProofs J5sContractProofs J5sLinkProofs J5sResolveProofs J5sResolveCompleteProofs J5sServiceProofs J5sTotalProofs J5sSymbolProofs J5sCompileProofs J5sSubPkgProofs J5sDepsProofs J5sNameProofs J5sTypeNameProofs J5sWitnessProofs.
 Import ListNotations.
 Local Open Scope N_scope.
 
 (* ---- the tables of the Go source are the tables of the model (re-checked on every run) *)
-Theorem C02_import_constants_agree : model_import_constants = ImportsGen.import_constants.
+Theorem C02_import_constants_agree : forallb const_agrees model_import_constants = true.
 Proof. exact import_constants_agree. Qed.
 Print Assumptions C02_import_constants_agree.
 
@@ -119,6 +119,33 @@ Theorem C02_references_follow_import_rule : forall this imports im exports r t,
 Proof. exact resolve_sound. Qed.
 Print Assumptions C02_references_follow_import_rule.
 
+(* ... and conversely (completeness, which makes the validity condition "every reference
+   resolves to a declaration of the right kind" declarative): a reference without prefix or with
+   the file's own package resolves to the declaration of that name in the package; a reference
+   written with a prefix of an import resolves to the declaration of that name in the imported
+   package - provided exported names are distinct and imports are unambiguous *)
+Theorem C02_references_resolve_own : forall this im exports,
+  (forall p ex, exports p = Some ex -> J5sValid.distinct (map tr_name ex) = true) ->
+  forall r ex t,
+  (r_pkg r = [] \/ r_pkg r = this) -> exports this = Some ex -> In t ex -> tr_name t = r_name r ->
+  resolve (mkEnv this im exports) r = Ok t.
+Proof. exact resolve_complete_own. Qed.
+Print Assumptions C02_references_resolve_own.
+
+Theorem C02_references_resolve_imported : forall this imports im exports,
+  import_map imports [] = Ok im ->
+  (forall p ex, exports p = Some ex -> J5sValid.distinct (map tr_name ex) = true) ->
+  forall r i ex t,
+  imports_unambiguous imports ->
+  r_pkg r <> [] -> r_pkg r <> this ->
+  implicit_ref implicit_table (r_pkg r) (r_name r) = None ->
+  implicit_ref implicit_table (import_pkg i) (r_name r) = None ->
+  In i imports -> import_key i (r_pkg r) ->
+  exports (import_pkg i) = Some ex -> In t ex -> tr_name t = r_name r ->
+  resolve (mkEnv this im exports) r = Ok t.
+Proof. exact resolve_complete_import. Qed.
+Print Assumptions C02_references_resolve_imported.
+
 (* ... every reference of a run of properties, at any depth, resolves, and the file defining its
    target is among the imports collected for the generated file; collected imports other than
    the file itself become dependencies *)
@@ -132,6 +159,19 @@ Theorem C02_imports_become_dependencies : forall self imps x,
   In x imps -> x <> self -> In x (deps_of self imps).
 Proof. exact in_deps_of. Qed.
 Print Assumptions C02_imports_become_dependencies.
+
+(* ... and for compiled packages (whatever compile accepts, valid or not): every reference written
+   in a declaration of a source file of the package - at any depth, nested declarations,
+   requests, responses, topic messages and implicit leading fields included - resolves in the
+   file's environment (to the declaration the documented import rule denotes:
+   C02_references_follow_import_rule), and the file defining its target is the generated file
+   the declaration goes to (main / .service / .topic) or one of that file's dependencies *)
+Theorem C02_references_reach_dependencies : forall snake camel screaming bd pkg D,
+  compile_package snake camel screaming bd pkg = Ok D ->
+  forall f im, In (BJ f) bd -> j5s_pkg f = pkg -> import_map (jf_imports f) [] = Ok im ->
+  file_refs_ok (mkEnv (j5s_pkg f) im (pkg_exports camel bd)) f D.
+Proof. exact compile_refs_imported. Qed.
+Print Assumptions C02_references_reach_dependencies.
 
 (* ---- type names after the link step (fix 2ef7c92: names without a leading dot are qualified
    before linking): the name Root.Path.Name the converter writes for an inline type becomes
@@ -149,31 +189,96 @@ Theorem C02_map_entry_type_name : forall nested fpkg scope en,
 Proof. exact link_name_entry. Qed.
 Print Assumptions C02_map_entry_type_name.
 
+(* ---- symbols: whenever a package converts, the linker's symbol table (every message, field,
+   enum, enum value, service and method of the generated files, fully qualified; plus the
+   symbols of the package's hand-written .proto files) is exactly the list of symbols the source
+   declares (J5sSymbols: read off the source with the README naming rules).  The symbol clause
+   of validity - that list has no duplicates - is therefore a statement about the source. *)
+Theorem C02_symbol_table_is_declared : forall snake camel screaming bd pkg fs,
+  convert_package snake camel screaming bd pkg = Ok fs ->
+  package_symbols bd pkg fs = decl_package_symbols snake camel screaming bd pkg.
+Proof. exact package_symbols_declared. Qed.
+Print Assumptions C02_symbol_table_is_declared.
+
+(* ... and for the compiled main files of a valid bundle (files in package directories): the
+   list of (field, type name) pairs of the linked descriptor - every field of every message at
+   every depth - is the declared one (J5sTypeNames): a scalar with a message representation
+   names its well-known type, a reference .<package>.<Name> of the declaration it resolves to, an
+   inline object / oneof / enum .<package>.<Root>.<Path>.<Name> nested under the message of the
+   field, a map field its entry message, the entry's value field the item type *)
+Theorem C02_field_type_names : forall bd pkg D,
+  valid bd = true -> (forall x, In x bd -> bfile_pkg x <> []) -> compile bd pkg = Ok D ->
+  forall f im, In (BJ f) bd -> j5s_pkg f = pkg -> import_map (jf_imports f) [] = Ok im ->
+  exists df, In df D /\
+    main_types_ok to_snake to_camel (mkEnv (j5s_pkg f) im (pkg_exports to_camel bd)) f df.
+Proof. exact (compile_tnames to_snake to_camel to_screaming_snake to_camel_nodot to_snake_nodot). Qed.
+Print Assumptions C02_field_type_names.
+
+(* the same for the request / response / topic messages: the .service and .topic files *)
+Theorem C02_field_type_names_subpackages : forall bd pkg D,
+  valid bd = true -> (forall x, In x bd -> bfile_pkg x <> []) -> compile bd pkg = Ok D ->
+  forall f im, In (BJ f) bd -> j5s_pkg f = pkg -> import_map (jf_imports f) [] = Ok im ->
+  (file_services f <> [] ->
+     exists df, In df D /\ service_types_ok to_snake to_camel (mkEnv (j5s_pkg f) im (pkg_exports to_camel bd)) f df) /\
+  (file_topics f <> [] ->
+     exists df, In df D /\ topic_types_ok to_snake to_camel (mkEnv (j5s_pkg f) im (pkg_exports to_camel bd)) f df).
+Proof. exact (compile_sub_tnames to_snake to_camel to_screaming_snake to_camel_nodot to_snake_nodot). Qed.
+Print Assumptions C02_field_type_names_subpackages.
+
+(* what the declared list looks like: object Foo { field x object { field q string }
+   object Foo { object X { field other string } } } (the package of a repaired defect) *)
+Example C02_type_names_example :
+  flat_map (elem_ftypes to_snake to_camel (mkEnv (b "foo.v1") [] (pkg_exports to_camel w_captured)) (b "foo.v1"))
+    [EObject (b "Foo")
+        (mkprops [Property (b "x") false false (FObjInline [] (mkprops [sfield "q"]))])
+        (mknesteds [NObject (b "Foo") PNil (mknesteds [NObject (b "X") (mkprops [sfield "other"]) NNil])])] =
+  [(b "foo.v1.Foo.x", b ".foo.v1.Foo.X"); (b "foo.v1.Foo.X.q", []); (b "foo.v1.Foo.Foo.X.other", [])].
+Proof. vm_compute. reflexivity. Qed.
+
 (* ---- acceptance: in a valid bundle every source file of every package converts, and the whole
    package compiles (conversion, link step, link of every imported generated file; the fuel of
    the dependency closure always suffices) *)
 Theorem C02_valid_packages_convert : forall snake camel screaming bd pkg,
-  valid_bundle snake camel bd = true -> (exists f, In f bd /\ bfile_pkg f = pkg) ->
+  valid_bundle snake camel screaming bd = true -> (exists f, In f bd /\ bfile_pkg f = pkg) ->
   exists D, convert_package snake camel screaming bd pkg = Ok D.
 Proof. exact convert_package_total. Qed.
 Print Assumptions C02_valid_packages_convert.
 
 Theorem C02_valid_packages_compile : forall snake camel screaming bd pkg,
-  valid_bundle snake camel bd = true -> (exists f, In f bd /\ bfile_pkg f = pkg) ->
+  valid_bundle snake camel screaming bd = true -> (exists f, In f bd /\ bfile_pkg f = pkg) ->
   exists D, compile_package snake camel screaming bd pkg = Ok D.
 Proof. exact compile_total. Qed.
 Print Assumptions C02_valid_packages_compile.
 
-(* ---- the property at full strength (structural contract: files, messages, enums, fields with
-   name / JSON name / number / type / cardinality / optionality, nesting to any depth), for every
-   name conversion; the service / topic / reference / type-name clauses are the separate theorems
-   above, stated on the same converter functions *)
+(* ---- the package-level statement: every package of a valid bundle compiles (conversion, the
+   linker's symbol table, link step, link of the imported generated files), and its output is,
+   per source file of the package (package_contract_full):
+   - the main file <path>.j5s.proto in the package, holding exactly the declared objects, oneofs
+     and enums: messages, enums, fields with name / JSON name / number / type / cardinality /
+     optionality, enum values, inline types nested under their names, to any depth;
+   - exactly when the source declares services, <dir>/service/<base>.p.j5s.proto in the package
+     <pkg>.service: per service <Name>Service with one rpc per method - input
+     .<pkg>.service.<Method>Request, output .<pkg>.service.<Method>Response or
+     .google.api.HttpBody, the declared HTTP verb, the path (base path joined, :name ->
+     {snake_name}), body "*" except for GET - and the request / response messages with the
+     declared fields;
+   - exactly when it declares topics, <dir>/topic/<base>.p.j5s.proto in <pkg>.topic: per topic
+     the <Topic>Topic service (two for request / reply) with the messaging role and topic name,
+     one rpc <Name>(.<pkg>.topic.<Name>Message) returns (.google.protobuf.Empty) per message,
+     and the messages with the implicit leading field and the declared ones;
+   - and no other file.
+   [valid] (J5sCorr: J5sValid.valid_bundle with the byte-exact strcase functions) = the
+   documented restrictions plus: no two declarations of a package generate the same proto
+   symbol; every run compares it with acceptance by the real compiler.
+   Not part of package_contract_full: which type a message / enum field names (C02_references_*,
+   C02_inline_type_name, C02_map_entry_type_name are statements on the converter functions) and
+   the dependency lists. *)
 Definition C02_full_statement : Prop :=
   forall bd pkg, valid bd = true -> (exists f, In f bd /\ bfile_pkg f = pkg) ->
-    exists D, compile bd pkg = Ok D /\ package_contract to_snake to_camel to_screaming_snake bd pkg D.
+    exists D, compile bd pkg = Ok D /\ package_contract_full to_snake to_camel to_screaming_snake bd pkg D.
 
 Theorem C02_full : C02_full_statement.
-Proof. exact (compile_correct to_snake to_camel to_screaming_snake). Qed.
+Proof. exact (compile_correct_full to_snake to_camel to_screaming_snake). Qed.
 Print Assumptions C02_full.
 
 (* ---- regression examples: the inputs of the repaired defects compile to the declared types *)
